@@ -77,8 +77,8 @@ def run(v, tier, seed, replay):
         "trusted_base": C.TRUSTED_BASE + ["fastant: monotone clock, monotone conversion per anchor, TSC consistent across cores (assumed)", "std::time::Instant / SystemTime readings taken by the harness around every call"],
         "theorems": lean["theorems"], "axioms": lean["axioms"],
         "evaluations": len(cases), "distinct_nontrivial": len(nontriv),
-        "rule": "generated programs (as C01/C13) run with every API call bracketed by monotonic and wall-clock readings; for each delivered record: duration within the window between creating and finishing call (tolerance 150 µs + 0.02 %), "
-                "begin time within ±3 ms of the creating call's wall-clock window, event timestamps inside the span's interval, local children inside local parents and siblings disjoint within one report, elapsed() within its window. non-trivial = distinct program with a record of non-zero duration",
+        "rule": "generated programs (as C01/C13) run with every API call bracketed by monotonic and wall-clock readings; for each delivered record: duration within the window between creating and finishing call (tolerance 150 µs + 0.1 %), "
+                "begin time within ±(3 ms + 0.2 % of the duration) of the creating call's wall-clock window, event timestamps inside the span's interval, local children inside local parents and siblings disjoint within one report, elapsed() within its window. non-trivial = distinct program with a record of non-zero duration",
         "samples": [{"program": cases[0][:30]}] if cases else [],
         "traces_validated_against_impl": len(cases) if impl is not None else 0, "records_checked": recs,
         "correspondence_mismatches": len(mism), "oracle_failures": len(fails),
